@@ -763,9 +763,10 @@ def expected_cancel_error(spec, how):
     if how == 'shutdown_cancel':
         return CancelledError, msg
     if how == 'with_exc':
-        from .scenario import with_exc_class
+        from .scenario import with_exc_instance
 
-        return FatalError, (msg if msg else repr(with_exc_class(spec)(msg)))
+        e = with_exc_instance(spec, msg)
+        return FatalError, (str(e) or repr(e))
     if how in ('with_kbi', 'kbi_shutdown', 'kbi_exit'):
         return CancelledError, None
     raise ValueError(how)
